@@ -31,6 +31,9 @@ from common import err_kind, hexs, lst
 CORPUS_IN_RUN = True   # run() replays corpus/C13/*.json itself, first (see replay_corpus)
 SIG_TORN = "C13:xyz:cut-inside-last-token"
 SIG_RAISE = "C13:xyz:partial-line-raises"
+# open candidate findings on the UNCHANGED /repo (reported, not yet recorded in known_findings.json): a failure with one of
+# these signatures is written into the evidence (extra.pending_findings) instead of being printed as a VIOLATION
+PENDING_FINDINGS = ["C13:lammps:trailing-blank-late-newline"]
 
 
 def _imports():
@@ -127,7 +130,8 @@ def gen_lmp(rng, natoms, nframes, style):
             toks = [gen_num(rng) for _ in range(ncols)]
             box.append(toks + ["0"] * (3 - ncols))
             text += sep(rng, style).join(toks) + "\n"
-        text += f"ITEM: ATOMS id type x y z vx vy vz id{u()}\n"
+        tb = " " if style == 3 else ""       # LAMMPS ends these lines with "id \n"
+        text += f"ITEM: ATOMS id type x y z vx vy vz id{u()}{tb}\n"
         ids = list(range(1, natoms + 1))
         rng.shuffle(ids)
         if fr % 3 == 1:
@@ -143,7 +147,7 @@ def gen_lmp(rng, natoms, nframes, style):
             rows[i - 1] = toks
             lead = "" if style == 0 else " " * rng.randrange(0, 2)
             typ = str(rng.randrange(1, 3)) if style != 2 else rng.choice(["Cα", "Å", "1", "µ2"])
-            text += lead + sep(rng, style).join([str(i), typ] + toks + [str(i)]) + "\n"
+            text += lead + sep(rng, style).join([str(i), typ] + toks + [str(i)]) + tb + "\n"
         frames.append((rows, box))
         bounds.append(blen(text))
     return text, frames, bounds
@@ -303,7 +307,9 @@ def pred_xyz(stages, cuts, frames, bounds):
     return None
 
 
-def pred_lmp(stages, cuts, frames, bounds):
+def pred_lmp(stages, cuts, frames, bounds, slack=1):
+    """slack: bytes of a frame that may still be missing when it is returned — its final newline (1), or the blank
+    and the newline behind the trailing id when the atom lines end in "id \n" (2): never a byte of a value"""
     exp = [(fl_rows(c), fl_rows(b)) for c, b in frames]
     got = []
     for k, st in enumerate(stages):
@@ -313,7 +319,7 @@ def pred_lmp(stages, cuts, frames, bounds):
         d = len(got)
         if got != exp[:d]:
             return "C13:lammps:torn-or-wrong-frame", f"after poll {k} returned frames are not a prefix of the written ones", k
-        if bounds[d] - 1 > cuts[k]:
+        if bounds[d] - slack > cuts[k]:
             return "C13:lammps:torn-or-wrong-frame", f"after poll {k}: {d} frames returned, only {cuts[k]} bytes visible, frame {d} ends at {bounds[d]}", k
         if k >= 1 and d < complete(bounds, cuts[k - 1]):
             return "C13:lammps:frame-withheld", f"after poll {k}: {d} frames returned but {complete(bounds, cuts[k - 1])} were complete one poll earlier", k
@@ -371,7 +377,10 @@ def drive_model(ctx, head, seqs, chunk=300):
 
 
 # ----------------------------------------------------------------------------- text readers
-def check_text(ctx, ep, rf, kind, text, frames, bounds, seqs, label):
+def check_text(ctx, ep, rf, kind, text, frames, bounds, seqs, label, trailing=False):
+    """trailing=True: LAMMPS atom lines end in a blank (outside `LmpF.WF`): model = code is still compared, the spec
+    functions are not (their theorems assume WF), and the one known way this class fails — a poll that sees a frame up
+    to its last id but not the " \n" behind it, after which the next poll raises ValueError — is a PENDING finding"""
     data = text.encode()
     T = len(data)
     fn = ep.xyz_reader if kind == "xyz" else ep.lammpstrj_reader
@@ -402,7 +411,15 @@ def check_text(ctx, ep, rf, kind, text, frames, bounds, seqs, label):
         ctx.count(1, branch=f"{kind}:{shape}")
         if any(c not in bounds for c in cuts[:-3]):
             ctx.distinct((kind, label, tuple(cuts)))
-        bad = pred(code[k], cuts, frames, bounds)
+        bad = pred(code[k], cuts, frames, bounds, 2) if trailing else pred(code[k], cuts, frames, bounds)
+        if (bad is not None and trailing and bad[0] == "C13:lammps:partial-frame-raises"
+                and any(c + 2 in bounds[1:] for c in cuts)):
+            psig = PENDING_FINDINGS[0]
+            ctx.hit(f"pending:{psig}")
+            pend = ctx.extra.setdefault("pending_findings", {})
+            if psig not in pend:
+                pend[psig] = {"what": bad[1], "text": text, "cuts": cuts, "stage": bad[2]}
+            bad = None
         if bad is not None:
             nfail += 1
             sig, what, stage = bad
@@ -419,6 +436,8 @@ def check_text(ctx, ep, rf, kind, text, frames, bounds, seqs, label):
                     first_dis = (cuts, code_s[k], m_asis[k])
             if m_rep is not None and strip_pos(code_s[k]) != strip_pos(m_rep[k]):
                 agree_rep = False
+            if trailing:
+                continue
             # the spec function (theorem right-hand side) against the implementation's output
             spec_st = [[int(x) for x in s.split(",") if x.strip()] for s in spec[k].split(" | ")]
             target = m_rep if kind == "xyz" else m_asis
@@ -435,7 +454,7 @@ def check_text(ctx, ep, rf, kind, text, frames, bounds, seqs, label):
     if have_model:
         from props import c13_ext
         c13_ext.compare_object(ctx, kind, data, text, seqs, code, prevs, lens, frames, label,
-                               (show_code_stage, canon_model, fl_rows))
+                               (show_code_stage, canon_model, fl_rows), with_spec=not trailing)
         if kind == "xyz":
             if agree_asis:
                 ctx.hit("xyz:code-agrees-with-model=asIs")
@@ -1022,7 +1041,8 @@ def run(ctx):
                         (1, 2, 3, True, 2500), (2, 3, 3, True, 1500), (3, 4, 3, False, None)]
             lmp_plan = [(1, 2, 0, True, 2500), (2, 2, 1, True, 1200), (3, 3, 0, False, None), (4, 4, 1, False, None),
                         (1, 1, 0, True, None), (2, 4, 0, False, None), (12, 2, 0, False, None),
-                        (1, 2, 2, True, 1500), (3, 3, 2, False, None)]
+                        (1, 2, 2, True, 1500), (3, 3, 2, False, None),
+                        (1, 2, 3, True, 1500), (2, 3, 3, False, None)]
         else:
             for na in range(1, 5):
                 for nf in range(1, 5):
@@ -1031,6 +1051,7 @@ def run(ctx):
                     for style in range(3):
                         lmp_plan.append((na, nf, style, na * nf <= 2, 20000))
             lmp_plan += [(12, 2, 0, False, None), (11, 3, 1, False, None)]
+            lmp_plan += [(na, nf, 3, na * nf <= 2, 20000) for na in range(1, 4) for nf in range(1, 4)]
         pool = []
         for j, (na, nf, style, pairs, mp) in enumerate(xyz_plan):
             text, frames, bounds = gen_xyz(rng, na, nf, style)
@@ -1041,9 +1062,11 @@ def run(ctx):
                 ctx.sample({"kind": "xyz", "text": text, "n_cut_sequences": len(seqs)})
         for j, (na, nf, style, pairs, mp) in enumerate(lmp_plan):
             text, frames, bounds = gen_lmp(rng, na, nf, style)
-            pool.append(("lmp", text, frames, bounds))
+            if style != 3:      # the object-state scenarios judge with the plain predicates: keep the pending class out
+                pool.append(("lmp", text, frames, bounds))
             seqs = cut_seqs(blen(text), pairs, rng, mp) + extra_seqs(blen(text), bounds, rng)
-            check_text(ctx, ep, rf, "lmp", text, frames, bounds, seqs, f"lmp{j}:{na}x{nf}:s{style}")
+            check_text(ctx, ep, rf, "lmp", text, frames, bounds, seqs, f"lmp{j}:{na}x{nf}:s{style}",
+                       trailing=(style == 3))
             if j < 1:
                 ctx.sample({"kind": "lammpstrj", "text": text, "n_cut_sequences": len(seqs)})
 
@@ -1092,8 +1115,11 @@ def run(ctx):
         "(U+0085, U+00A0, U+2000.., U+3000: str.split() would split there, the byte model does not), and a locale "
         "whose encoding is not UTF-8",
         "constant atom count over a trajectory (the readers learn N only from the first frame of each poll)",
-        "LAMMPS atom lines carry no blanks after the trailing id (dump custom of current LAMMPS); with a trailing "
-        "blank the late-newline skip of lammpstrj_reader does not match and the next poll raises ValueError",
+        "the LAMMPS theorems (LmpF.WF) assume no blank after the trailing id of an atom line; trajectories WITH that "
+        "blank (what LAMMPS dump custom writes: 'id \\n') are generated as a class of their own (every cut; model = code "
+        "compared; frames may be returned while only the ' \\n' is missing): a poll that sees a frame exactly up to its "
+        "last id makes the next poll raise ValueError (lmp_trailing_blank_counterexample) — recorded as PENDING finding "
+        "C13:lammps:trailing-blank-late-newline in extra.pending_findings, not printed as a violation",
         "number tokens restricted to [+-]digits[.digits][e[+-]digits] (no inf/nan/underscores); float()/numpy "
         "string-to-double conversion assumed correctly rounded and identical",
         "TRR: the Lean model is the whole get_gromacs_frames generator at byte level (gGen: size guards, read_trr_header, "
